@@ -32,6 +32,7 @@ type Case struct {
 	Outcome string   `json:"outcome"`
 	Carries bool     `json:"carries"`
 	Lenient bool     `json:"lenient"`
+	IdPat   string   `json:"idpat"`
 }
 
 // foreign: content of another operation, sent under the requested operation code
@@ -234,6 +235,14 @@ func serve(conn net.Conn, c Case, spec opSpec, msg string, sv *served) {
 			if k < len(req.BatchItem) {
 				id = req.BatchItem[k].UniqueBatchItemID
 				reqOp = req.BatchItem[k].Operation
+				switch c.IdPat {
+				case "dup":
+					id = req.BatchItem[0].UniqueBatchItemID
+				case "none":
+					id = nil
+				case "swap":
+					id = req.BatchItem[len(req.BatchItem)-1-k].UniqueBatchItemID
+				}
 			}
 			resp.BatchItem = append(resp.BatchItem, buildItem(class, reqOp, spec.good(), id, msg))
 		}
